@@ -16,7 +16,9 @@
 using namespace verif;
 
 struct Mapping { uintptr_t base; size_t len; void *raw; size_t rawlen; void *bookkeeping = nullptr; std::vector<uint8_t> poison; /* 1 = poisoned; poisoning policy only */ };
-struct PolState { std::map<uintptr_t, Mapping> maps; uint64_t n_map = 0, n_unmap = 0; bool bad = false; std::string why; long fail_next = -1; };
+struct PolState { std::map<uintptr_t, Mapping> maps; uint64_t n_map = 0, n_unmap = 0; bool bad = false; std::string why;
+	long fail_at = -1; uint64_t map_calls = 0, n_failed = 0; }; // fail_at: the map call with this index (0-based, prefill included) returns 0
+static thread_local bool t_map_failed = false; // a map() call made by this worker failed since the flag was last cleared
 static PolState *g_ps;
 // re-entrant policy variant: the policy keeps one bookkeeping record per mapping and allocates it from the pool it serves
 // (the property promises this works because map/unmap are never called with a pool lock held)
@@ -38,6 +40,7 @@ struct SPolicyT {
 	uintptr_t map(size_t len, size_t align) {
 		no_lock("map");
 		sched::yield_point("policy.map", len);
+		if(g_ps->fail_at >= 0 && (long)g_ps->map_calls++ == g_ps->fail_at) { g_ps->n_failed++; t_map_failed = true; sched::yield_point("policy.map.returns0", len); return 0; }
 		size_t rawlen = len + align + pagesize;
 		void *raw = mmap(nullptr, rawlen, PROT_READ | PROT_WRITE, MAP_PRIVATE | MAP_ANONYMOUS | MAP_NORESERVE, -1, 0);
 		uintptr_t base = ((uintptr_t)raw + align - 1) & ~(uintptr_t)(align - 1);
@@ -105,8 +108,10 @@ struct Ctx {
 	std::vector<void *> slots; // shared hand-off slots (indices are script parameters)
 	uint64_t serial = 0;
 	void *do_alloc(int me, size_t n, const char *how = "allocate", void *old = nullptr) {
+		t_map_failed = false;
 		void *p = old ? pool->realloc(old, n) : pool->allocate(n);
-		if(!p) { mon.fail("null", strf("%s(%zu) returned null although map() never fails", how, n)); return nullptr; }
+		if(!p && t_map_failed) { count("calls_that_returned_null_after_an_injected_map_failure"); if(old) { /* the source stays valid and live */ Block b{n, pool->get_size(old), ++serial * 0x9E3779B97F4A7C15ull, me}; b.req = std::min(b.req, b.size); mon.live[(uintptr_t)old] = b; for(size_t i = 0; i < owned(b); i++) ((uint8_t *)old)[i] = pat_byte(b.pat, i); return old; } return nullptr; }
+		if(!p) { mon.fail("null", strf("%s(%zu) returned null although no map() call of this worker failed", how, n)); return nullptr; }
 		uintptr_t a = (uintptr_t)p; size_t s = pool->get_size(p);
 		if(s < std::max<size_t>(n, 1)) mon.fail("too-small", strf("%s(%zu) returned a block of reported size %zu", how, n, s));
 		auto nx = mon.live.lower_bound(a);
@@ -140,7 +145,7 @@ struct Ctx {
 
 // script op: kind 0 alloc(size)->slot, 1 free(slot), 2 deallocate(slot), 3 realloc(slot,size)
 struct Op { int kind; int slot; size_t size; };
-struct Scenario { const char *name; std::vector<std::pair<int, size_t>> prefill; /* (slot, size) */ std::vector<std::vector<Op>> workers; int nslots; bool reentrant = false; bool poison = false; int quick_bound = 3; };
+struct Scenario { const char *name; std::vector<std::pair<int, size_t>> prefill; /* (slot, size) */ std::vector<std::vector<Op>> workers; int nslots; bool reentrant = false; bool poison = false; int quick_bound = 3; long fail_at = -1; };
 
 template<bool POISON>
 static void run_world_t(const char *mode, long long idx, const Scenario &sc, sched::Strategy &strat) {
@@ -149,6 +154,8 @@ static void run_world_t(const char *mode, long long idx, const Scenario &sc, sch
 	SPolicyT<POISON> pol;
 	cx.pool = new typename Ctx<POISON>::Pool(pol);
 	g_reentrant = sc.reentrant; t_policy_depth = 0;
+	cx.ps.fail_at = sc.fail_at;
+	if(sc.fail_at >= 0) count("schedules_with_an_injected_map_failure");
 	g_pool_alloc = [&](size_t n) { return cx.pool->allocate(n); }; g_pool_free = [&](void *q) { cx.pool->free(q); };
 	if(POISON) count("schedules_with_poisoning_policy");
 	cx.slots.assign(sc.nslots, nullptr);
@@ -177,7 +184,7 @@ static void run_world_t(const char *mode, long long idx, const Scenario &sc, sch
 	std::string tail; for(size_t k = w.trace.size() > 60 ? w.trace.size() - 60 : 0; k < w.trace.size(); k++) tail += w.trace[k] + " ";
 	if(idx == 1) sample(std::string(mode) + " schedule #1, scripts {" + sdesc + "} observed points: " + tail.substr(0, 900), 40);
 	auto flag = [&](const std::string &key, const std::string &what) {
-		if(g_prop != "C05" && key.find("poison") == std::string::npos) { count("unarmed:" + key); return; } // run for C03: only the poisoning verdicts
+		if(g_prop == "C03" && key.find("poison") == std::string::npos) { count("unarmed:" + key); return; } // run for C03: only the poisoning verdicts (run for C04: the fault scenarios, every verdict)
 		case_detail("%s :: last points: %s", sdesc.c_str(), tail.substr(0, 3000).c_str()); violation(g_prop + ":slab:" + key, what + " [" + std::string(sc.name) + ": " + sdesc + "]"); };
 	if(cx.ps.bad) { auto b = cx.ps.why.find('|'); flag(cx.ps.why.substr(0, b), cx.ps.why.substr(b + 1)); }
 	else if(cx.mon.bad) { auto b = cx.mon.why.find('|'); flag(cx.mon.why.substr(0, b), cx.mon.why.substr(b + 1)); }
@@ -212,6 +219,12 @@ static std::vector<Scenario> scenarios() {
 		{"three-workers-one-class", {}, {{{0, 0, 32}, {1, 0, 0}}, {{0, 1, 32}, {1, 1, 0}}, {{0, 2, 32}, {1, 2, 0}}}, 4},
 		{"reentrant-policy:both-find-class-empty", {}, {{{0, 0, 64}, {1, 0, 0}}, {{0, 1, 64}, {1, 1, 0}}}, 4, true},
 		{"reentrant-policy:large-alloc-and-free", {}, {{{0, 0, 5000}, {1, 0, 0}}, {{0, 1, 24}, {0, 2, 9000}, {1, 2, 0}}}, 4, true},
+		// an injected map() failure (the failing call is a scheduling point: the other worker runs while map() is "trying"): the call
+		// that needed the memory may return null, nothing may break and the pool must keep working once map() works again
+		{"fault:new-slab-map-fails-while-other-frees-same-class", full128, {{{0, 4, 128}, {0, 5, 128}, {0, 6, 128}, {1, 4, 0}}, {{1, 0, 0}, {0, 7, 128}}}, 8, false, false, 3, 1},
+		{"fault:both-find-class-empty-first-map-fails", {}, {{{0, 0, 64}, {0, 2, 64}, {1, 0, 0}}, {{0, 1, 64}, {1, 1, 0}}}, 4, false, false, 3, 0},
+		{"fault:both-find-class-empty-second-map-fails", {}, {{{0, 0, 64}, {0, 2, 64}, {1, 0, 0}}, {{0, 1, 64}, {1, 1, 0}}}, 4, false, false, 3, 1},
+		{"fault:large-map-fails-beside-small-traffic", {}, {{{0, 0, 5000}, {0, 1, 5000}, {1, 1, 0}}, {{0, 2, 24}, {0, 3, 9000}, {1, 2, 0}}}, 4, false, true, 3, 1},
 		// poisoning policy: every poison/unpoison callback is a scheduling point; the requested bytes of every live block must be unpoisoned
 		{"poison:free-while-other-allocates-same-class", few128, {{{1, 0, 0}, {2, 1, 0}}, {{0, 4, 100}, {0, 5, 128}}}, 8, false, true},
 		{"poison:both-find-class-empty", {}, {{{0, 0, 60}, {1, 0, 0}}, {{0, 1, 64}, {1, 1, 0}}}, 4, false, true, 3},
@@ -230,7 +243,8 @@ int main(int argc, char **argv) {
 	auto scs = scenarios();
 	unsigned di = 0;
 	for(auto &sc : scs) {
-		if(g_prop != "C05" && !sc.poison) continue;
+		if(g_prop == "C03" && !sc.poison) continue;
+		if(g_prop == "C04" && sc.fail_at < 0) continue;
 		std::string mode = std::string("dfs:") + sc.name;
 		if(!want_mode(mode.c_str()) || (opt.mode.empty() && (di++ % opt.nshards) != opt.shard)) continue;
 		int bound = sc.workers.size() > 2 ? (t ? 3 : 2) : (t ? (sc.quick_bound == 2 ? 3 : 4) : sc.quick_bound);
@@ -252,7 +266,7 @@ int main(int argc, char **argv) {
 			uint64_t cs = sr.next();
 			if(!want_case(i)) continue;
 			Rng r(cs);
-			Scenario sc; sc.name = "random-scripts"; sc.nslots = 12; sc.reentrant = r.chance(1, 3); sc.poison = (g_prop != "C05") || r.chance(1, 2);
+			Scenario sc; sc.name = "random-scripts"; sc.nslots = 12; sc.reentrant = r.chance(1, 3); sc.poison = (g_prop == "C03") || r.chance(1, 2); if(g_prop == "C04" || r.chance(1, 4)) sc.fail_at = r.below(4);
 			int nw = 2 + r.below(2);
 			for(size_t k = r.below(3) ? 0 : 28 + r.below(5); k; k--) sc.prefill.push_back({k <= 4 ? (int)k - 1 : -1, 128});
 			sc.workers.resize(nw);
